@@ -91,7 +91,7 @@ impl Case {
     /// the matrix, for the specification's own determinant (mod small primes): plain ints or BigInt records
     fn matrix_fields(&self, ev: &mut Value) {
         let o = ev.as_object_mut().unwrap();
-        if self.k > 40 {
+        if self.k > 64 {
             o.insert("mk".into(), json!("none"));
         } else if self.max_abs() < (1 << 31) {
             o.insert("mk".into(), json!("int"));
@@ -137,6 +137,17 @@ fn extend(c: &Case, rng: &mut StdRng, kk: usize, nops: usize, bound: i64, tag: &
         .collect();
     let mut sign = c.sign;
     let ok = |v: i64| v.abs() <= bound;
+    // every row receives another one first (untouched rows d*e_i with equal d make the matrix derogatory,
+    // which is the documented blind spot of the Wiedemann determinant)
+    for i in 0..kk {
+        let j = (i + 1 + rng.gen_range(0..kk - 1)) % kk;
+        let cf: i64 = if rng.gen() { 1 } else { -1 };
+        if j != i && (0..kk).all(|t| ok(m[i][t] + cf * m[j][t])) {
+            for t in 0..kk {
+                m[i][t] += cf * m[j][t];
+            }
+        }
+    }
     for _ in 0..nops {
         match rng.gen_range(0..10) {
             0..=3 => {
@@ -526,101 +537,8 @@ fn ev_bm(rng: &mut StdRng, out: &mut Out, idx: usize, l: usize, pkind: usize, sk
 // ---------------------------------------------------------------------------------------------
 
 
-/// exploration aid (not used by the check): dense random matrices into det_matz
-fn probe(args: &Args) -> i32 {
-    let seed = arg_u64(args, "seed", 1);
-    let k = arg_u64(args, "k", 20) as usize;
-    let amp = arg_u64(args, "amp", 100) as i64;
-    let reps = arg_u64(args, "reps", 20);
-    let mut rng = rng_for(seed, "probe");
-    let mut fails = 0;
-    for rep in 0..reps {
-        let m: Vec<Vec<i64>> = if args.contains_key("formula") {
-            let a = rep as usize;
-            (0..k).map(|i| (0..k).map(|j| ((i * 37 + j * 91 + i * j * 13 + (i * i * j + a) % 17 + a * i) % 199) as i64 - 99).collect()).collect()
-        } else {
-            (0..k).map(|_| (0..k).map(|_| rng.gen_range(-amp..=amp)).collect()).collect()
-        };
-        let mut g = intdense::GramBuilder::default();
-        for r in &m {
-            g.add(r);
-        }
-        let l2 = g.detlog2_estimate();
-        let mm = m.clone();
-        let r = guard(move || {
-            let rows: Vec<&[i64]> = mm.iter().map(|v| &v[..]).collect();
-            intdense::det_matz(rows, l2)
-        });
-        match r {
-            Ok(d) => println!("rep {} ok bits {}", rep, d.unsigned_abs().bits()),
-            Err(e) => {
-                fails += 1;
-                println!("rep {} FAIL {} log2={}", rep, e, l2);
-                if k <= 12 { println!("{:?}", m); }
-            }
-        }
-    }
-    println!("fails {}/{}", fails, reps);
-    0
-}
-
-/// exploration aid: all 2x2 / random 3x3 small matrices into SmithNormalForm
-fn probe_snf(args: &Args) -> i32 {
-    let amp = arg_u64(args, "amp", 4) as i64;
-    let k = arg_u64(args, "k", 2) as usize;
-    let mut rng = rng_for(arg_u64(args, "seed", 1), "probe_snf");
-    let mut stats: std::collections::BTreeMap<String, (usize, String)> = Default::default();
-    let total = if k == 2 { (2 * amp + 1).pow(4) as usize } else { arg_u64(args, "reps", 20000) as usize };
-    for t in 0..total {
-        let m: Vec<Vec<i64>> = if k == 2 {
-            let b = 2 * amp + 1;
-            let mut x = t as i64;
-            let mut e = vec![];
-            for _ in 0..4 { e.push(x % b - amp); x /= b; }
-            vec![vec![e[0], e[1]], vec![e[2], e[3]]]
-        } else {
-            (0..k).map(|_| (0..k).map(|_| rng.gen_range(-amp..=amp)).collect()).collect()
-        };
-        // exact determinant by fraction-free elimination in i128
-        let mut a: Vec<Vec<i128>> = m.iter().map(|r| r.iter().map(|&v| v as i128).collect()).collect();
-        let mut det: i128 = 1; let mut prev: i128 = 1; let mut sing = false;
-        for c in 0..k {
-            if a[c][c] == 0 {
-                if let Some(r) = (c + 1..k).find(|&r| a[r][c] != 0) { a.swap(c, r); det = -det; } else { sing = true; break; }
-            }
-            for r in c + 1..k { for cc in c + 1..k { a[r][cc] = (a[r][cc] * a[c][c] - a[r][c] * a[c][cc]) / prev; } }
-            prev = a[c][c];
-        }
-        if sing { continue; }
-        let h = (det * a[k - 1][k - 1]).unsigned_abs();
-        if h == 0 { continue; }
-        let mut rows = m.clone();
-        let mut i = 0;
-        while rows.len() < 4.max(k + 1) { rows.push(m[i % k].clone()); i += 1; }
-        if m.iter().any(|r| r.iter().all(|&v| v == 0)) { continue; }
-        let rels: Vec<Vec<(u32, i32)>> = rows.iter().map(|r| r.iter().enumerate().filter(|(_, &v)| v != 0).map(|(j, &v)| (j as u32 + 2, v as i32)).collect()).collect();
-        let ncols = (0..k).filter(|&j| m.iter().any(|r| r[j] != 0)).count();
-        if ncols < k { continue; }
-        let hf = h as f64;
-        let r = guard(move || { let mut s = SmithNormalForm::new(&rels, vec![], hf, hf); s.reduce(); (s.h, (0..s.rows.len()).map(|i| s.rows[i][i]).collect::<Vec<_>>()) });
-        let key = match &r {
-            Ok((hh, dg)) => if *hh == h && dg.iter().product::<i128>() == h as i128 { "ok".to_string() } else { format!("WRONG") },
-            Err(e) => format!("{} {}", e["loc"], &e["msg"].as_str().unwrap()[..e["msg"].as_str().unwrap().len().min(50)]),
-        };
-        let ent = stats.entry(key).or_insert((0, format!("{:?} h={}", m, h)));
-        ent.0 += 1;
-    }
-    for (k, v) in stats { println!("{:6} {} e.g. {}", v.0, k.replace('\n', " "), v.1); }
-    0
-}
 
 pub fn run(args: &Args) -> i32 {
-    if args.contains_key("probe_snf") {
-        return probe_snf(args);
-    }
-    if args.contains_key("probe") {
-        return probe(args);
-    }
     let seed = arg_u64(args, "seed", 1);
     let thorough = arg_str(args, "tier", "quick") == "thorough";
     let behs = read_ndjson(arg_str(args, "beh", "behaviours.ndjson"));
@@ -630,65 +548,62 @@ pub fn run(args: &Args) -> i32 {
     let t: i128 = -((1i128 << 100) + 12345);
     out.ev(json!({"op": "selftest", "case": "selftest", "a": di128(t), "b": du128(1u128 << 100), "c": 12345}));
 
+    let shapes = read_ndjson(arg_str(args, "shapes", "shapes.ndjson"));
+    let mats: Vec<&Value> = shapes.iter().filter(|s| s["kind"] == "mat").collect();
+    let bms: Vec<&Value> = shapes.iter().filter(|s| s["kind"] == "bm").collect();
+    let mut si = 0;
     for (bi, b) in behs.iter().enumerate() {
         let c = case_from(bi, b);
-        // (a) the behaviour as generated by TLC
+        // (a) the behaviour as generated by TLC, into every routine
         ev_det_dense(&c, &mut out);
         ev_det_sparse(&c, &mut rng, &mut out);
         ev_lattice(&c, &mut rng, &mut out, bi, true);
         ev_snf(&c, &mut rng, &mut out, bi + 2);
-        // (b) larger matrices built on top of it
-        let gentle = c.max_abs() <= 5000;
-        if bi % 3 == 0 && gentle {
-            let kk = [16usize, 24, 33, 40, 60][(bi / 3) % 5];
-            let kk = if thorough { kk } else { kk.min(40) };
-            let e = extend(&c, &mut rng, kk, 3 * kk, 40000, "e");
-            ev_det_dense(&e, &mut out);
-            ev_det_sparse(&e, &mut rng, &mut out);
-            ev_lattice(&e, &mut rng, &mut out, bi + 1, true);
-            ev_snf(&e, &mut rng, &mut out, bi + 3);
-            // big determinants on the larger matrix
-            let nrows = [1usize, 2, 5, 9, 14, 20, 24][(bi / 3) % 7].min(kk);
-            let g = scale_big(&e, &mut rng, nrows, "s");
-            ev_det_dense(&g, &mut out);
+        // (b) the next variant shape on top of it (entries of the behaviour must leave room)
+        if c.max_abs() > 5000 || mats.is_empty() {
+            continue;
         }
-        // (b') dense matrices (many operations): the blocked elimination of det_matz works on full rows
-        if bi % 6 == 2 && gentle {
-            let kk = [12usize, 20, 28, 40, 60][(bi / 6) % 5];
-            let kk = if thorough { kk } else { kk.min(40) };
-            let e = extend(&c, &mut rng, kk, 40 * kk, 1000, "d");
-            ev_det_dense(&e, &mut out);
-            if bi % 12 == 2 {
+        let sh = mats[si % mats.len()];
+        si += 1;
+        let kk = sh["kk"].as_u64().unwrap() as usize;
+        let nbig = sh["nbig"].as_u64().unwrap() as usize;
+        match sh["variant"].as_str().unwrap() {
+            "ext" if kk >= c.k => {
+                let e = extend(&c, &mut rng, kk, 3 * kk, 40000, "e");
+                ev_det_dense(&e, &mut out);
+                ev_det_sparse(&e, &mut rng, &mut out);
+                ev_lattice(&e, &mut rng, &mut out, bi + 1, true);
+                ev_snf(&e, &mut rng, &mut out, bi + 3);
+                let g = scale_big(&e, &mut rng, nbig.min(kk), "s");
+                ev_det_dense(&g, &mut out);
+            }
+            "dense" if kk >= c.k => {
+                let e = extend(&c, &mut rng, kk, 40 * kk, 1000, "d");
+                ev_det_dense(&e, &mut out);
+                ev_det_sparse(&e, &mut rng, &mut out);
                 ev_lattice(&e, &mut rng, &mut out, bi, false);
             }
-        }
-        // (c) big determinants directly on the behaviour
-        if bi % 2 == 1 {
-            let g = scale_big(&c, &mut rng, 1 + bi % c.k.max(1), "s");
-            ev_det_dense(&g, &mut out);
-        }
-        // (d) sparse matrices of a few hundred rows (Wiedemann)
-        let every = if thorough { 12 } else { 40 };
-        if bi % every == 7 && gentle {
-            let kk = if thorough { [120usize, 200, 300][(bi / every) % 3] } else { [64usize, 120][(bi / every) % 2] };
-            let e = extend(&c, &mut rng, kk, 4 * kk, 200, "w");
-            ev_det_sparse(&e, &mut rng, &mut out);
-            if kk <= 120 {
-                ev_det_dense(&e, &mut out);
+            "big" => {
+                let g = scale_big(&c, &mut rng, nbig.min(c.k), "s");
+                ev_det_dense(&g, &mut out);
             }
+            "wide" if kk >= c.k => {
+                let e = extend(&c, &mut rng, kk, 4 * kk, 200, "w");
+                ev_det_sparse(&e, &mut rng, &mut out);
+                if kk <= 120 {
+                    ev_det_dense(&e, &mut out);
+                }
+            }
+            _ => {}
         }
     }
-    // Berlekamp-Massey
+    // Berlekamp-Massey on sequences with a known recurrence
+    let reps = if thorough { 3 } else { 1 };
     let mut idx = 0;
-    for l in [1usize, 2, 3, 4, 5, 7, 8, 12, 16] {
-        for pkind in 0..4 {
-            for skind in 0..4 {
-                if !thorough && (l + pkind + skind) % 2 == 1 {
-                    continue;
-                }
-                ev_bm(&mut rng, &mut out, idx, l, pkind, skind);
-                idx += 1;
-            }
+    for sh in &bms {
+        for _ in 0..reps {
+            ev_bm(&mut rng, &mut out, idx, sh["L"].as_u64().unwrap() as usize, sh["pkind"].as_u64().unwrap() as usize, sh["skind"].as_u64().unwrap() as usize);
+            idx += 1;
         }
     }
     let _ = (I4096::ZERO, U256::ZERO, BInt::<4>::ZERO, BUint::<4>::ZERO, u64::cast_from(0u32));
